@@ -615,7 +615,8 @@ def F09(p):
                     def ap(q, i=i, k=k):
                         q.lines[i].lex[k - 1] = Lx("\t", "tab")
                         return i
-                    yield ln.kind + ":kw-type" + (":with-fptr-returning-pointer" if odd_params(ln) else ""), ap
+                    cp = ln.lex[k - 2].t == "const" and k >= 3 and ln.lex[k - 3].t == "*"
+                    yield ln.kind + (":after-const-pointer" if cp else ":kw-type") + (":with-fptr-returning-pointer" if odd_params(ln) else ""), ap
                     break
                 if "param-name" in x.tags and ln.lex[k - 1].k == "sp" and ln.lex[k - 2].k == "type":
                     def ap(q, i=i, k=k):
@@ -1246,7 +1247,7 @@ def P06(p):
 @op("P07", ("TOO_MANY_WS", "PREPROC_BAD_INDENT"))
 def P07(p):
     for i, ln in enumerate(p.lines):
-        if ln.kind in ("include", "define", "ifndef", "endif") and "ppdepth" in ln.info:
+        if ln.kind in ("include", "define", "ifndef", "endif", "ppelse") and "ppdepth" in ln.info:
             def ap(q, i=i):
                 q.lines[i].lex.insert(1, SP())
                 return i
@@ -1256,7 +1257,7 @@ def P07(p):
 @op("P08", "PREPROC_BAD_INDENT", ("h",))
 def P08(p):
     for i, ln in enumerate(p.lines):
-        if ln.kind in ("include", "define", "ifndef", "endif") and ln.info.get("ppdepth", 0) >= 1:
+        if ln.kind in ("include", "define", "ifndef", "endif", "ppelse") and ln.info.get("ppdepth", 0) >= 1:
             def ap(q, i=i):
                 del q.lines[i].lex[1]
                 return i
@@ -1380,6 +1381,24 @@ def _insert_type(p, kind):
                 q.lines[h:h] = _type_block(kind) + [Line([], "blank", 0, -1)]
                 return h
             yield "before-first-function", ap
+
+
+@op("T03b", ("FORBIDDEN_ENUM", "FORBIDDEN_STRUCT", "BRACE_NEWLINE"), ("c",), aux=True)
+def T03b(p):
+    # two violations at once (a type in a .c file, its brace on the keyword line), between two functions
+    for n, f in enumerate(p.funcs[1:], start=1):
+        h = f["head"]
+        while h >= 1 and p.lines[h - 1].kind == "comment":
+            h -= 1
+        if h >= 1 and p.lines[h - 1].kind == "blank":
+            for kind in ("enum", "struct"):
+                def ap(q, h=h, kind=kind):
+                    blk = _type_block(kind)
+                    blk[0].lex += [SP(), Lx("{", "brace")]
+                    del blk[1]
+                    q.lines[h:h] = blk + [Line([], "blank", 0, -1)]
+                    return h
+                yield kind, ap
 
 
 @op("T02", "FORBIDDEN_TYPEDEF", ("c",))
